@@ -421,7 +421,11 @@ def alternation_instance(kind, iterations, aligner=False, from_model=False, K=2)
 
     class FixedAligner:
         def calculate_mapping(self, mask, *a, **k):
-            return fixed_mapping.copy()
+            # the mapping belongs to the posteriors of an E-step; anything else (e.g. a quadratic form) gets another one
+            m_ = np.asarray(mask)
+            if any(m_.shape == (K, F, N) and np.array_equal(np.transpose(m_, (1, 0, 2)), a_) for a_ in affs):
+                return fixed_mapping.copy()
+            return np.roll(fixed_mapping, 1, axis=0)
 
         @staticmethod
         def apply_mapping(mask, mapping):
